@@ -97,28 +97,7 @@ func (C14) Run(t *testing.T, plan *kernel.Plan, keepLog bool) *kernel.Result {
 		}
 		if plan.Sw("cells") == 1 {
 			// stored cells are damaged envelopes (storage fault)
-			pw.DB.Corrupt = func(table string, row, col int, cell []byte) []byte {
-				if col < 2 || len(cell) < 8 {
-					return cell
-				}
-				c := append([]byte{}, cell...)
-				switch (row + col) % 5 {
-				case 4:
-					// cut to a length around the size of a search hash
-					return c[:min(len(c), 31+(row*3+col)%4)]
-				case 0:
-					return c[:len(c)/2]
-				case 1:
-					c[8+(row*7)%min(40, len(c)-8)] ^= 0xff
-				case 2:
-					for i := 4; i < 12 && i < len(c); i++ {
-						c[i] = 0xff // length field of the container
-					}
-				default:
-					c = append(c, c[:min(30, len(c))]...)
-				}
-				return c
-			}
+			pw.DB.Corrupt = c14CorruptCells()
 		}
 		run := pw.RunSession(owner, script)
 		for i, p := range pw.Panics {
